@@ -16,13 +16,28 @@ RULE = (
     "ancestors; recovery retry_delay 0 or positive; the order in which recoveries take the per-request locks is "
     "seed-chosen (identity-order seam); max_retries = 60. Oracle: the run terminates (no quiescence with parked "
     "recoveries) and does not abort; executions of every job <= 1 + own failures + loss events of its outputs "
-    "(each producer re-executed at most once per loss); outputs equal the failure-free reference. "
+    "(each producer re-executed at most once per loss); outputs equal the failure-free reference (a wrong output is "
+    "classified exactly as 'gather ran on a strict sub-list of the reference elements' or 'other'). "
     "non-trivial = two recoveries overlapped in virtual time; distinct = loop digests"
 )
 COMPONENTS = _c16.COMPONENTS
 ASSUMPTIONS = ["ancestor outputs are destroyed only by the injected fail-stop events recorded in the log"]
 TIERS = {"quick": {"runs": 500, "budget_s": 55}, "thorough": {"runs": 30000, "budget_s": 480}}
 SIM_KW = _c16.SIM_KW
+
+
+def _wrong_output_kind(shape, got):
+    """How the final output differs from the reference, computed exactly (no message matching): the consumer of the
+    gather ran once on a list from which elements are missing (every element present is correct and in order), or
+    anything else (wrong/duplicated/reordered element, several or no output tokens, non-scatter shapes)."""
+    if shape["kind"] in ("sg", "sg2") and len(got) == 1 and got[0][0] == "0":
+        elems = S.gathered_elements(shape)
+        n = len(elems)
+        for mask in range((1 << n) - 1):          # every strict sub-list, order kept
+            sub = [e for i, e in enumerate(elems) if mask >> i & 1]
+            if canon(got) == canon([("0", R.compute("/C", "0", {"x": sub}))]):
+                return "gathered_list_missing_elements"
+    return "other"
 
 
 def run(sim, params):
@@ -84,6 +99,6 @@ def run(sim, params):
     want = S.reference(shape)
     if canon(got) != canon(want):
         raise Violation("wrong_output", f"output after concurrent recoveries {canon(got)[:400]} != reference {canon(want)[:400]}; {d}",
-                        signature="wrong_output" + rep)
+                        signature="wrong_output:" + _wrong_output_kind(shape, got) + rep)
     sim.run(res.ctx.close())
     return {"nontrivial": overlapped, "sample": {"shape": shape, "failing": failing, "executions": dict(res.ctl.execs)}}
